@@ -17,7 +17,7 @@ GROUPS.append(G("shr_CodeSHARED", "harness/C10/h_asmallg.c", "h_CodeSHARED", enf
                 object_bits=12, defs=["-DVERIF_SHARED"], functions=["CodeSHARED", "IntLine"], bounded="one or two arguments, integer symbols (float / string values not explored), no comment"))
 TRUSTED_BASE = ["GetFileNum / AddAddressRange logging stubs", "stubs of h_as_writecode.c"]
 ASSUMPTIONS = []
-NOT_COVERED = ["MakeList for lines of more than 12 bytes (bounded) and of more than 65535 bytes (16-bit EffLen)", "PrintSymbolList / PrintDebSymbols / CodeSHARED (symbol values in listing, MAP and share file)", "BookKeeping (asmsub.c) argument passing", "Atmel/NoICE debug formats"]
+NOT_COVERED = ["WrLstLine (page-width splitting; a harness exists in harness/C19/h_asmsub.c under VERIF_WRLST but exhausts 14 GB even for 2-character lines, not registered)", "MakeList for lines of more than 12 bytes (bounded) and of more than 65535 bytes (16-bit EffLen)", "PrintSymbolList / PrintDebSymbols / CodeSHARED (symbol values in listing, MAP and share file)", "BookKeeping (asmsub.c) argument passing", "Atmel/NoICE debug formats"]
 EXPLANATION = ("Kernel only: WriteCode hands the line's segment, start address and length to the bookkeeping before the counter advances, and AddLineInfo "
                "stores exactly one (segment, file, line, address) record per line without losing earlier ones. The listing columns and the symbol "
                "sections of listing/MAP/share file are not under contract.")
